@@ -166,7 +166,16 @@ fn run_group(doc: &Document, g: usize) -> Sx {
             let first = it.next();
             let h1 = it.size_hint();
             let h = |h: (usize, Option<usize>)| Sx::L(vec![Sx::num(h.0), opt(h.1, Sx::num)]);
-            Sx::L(vec![h(h0), opt(first, oid_to_sx), h(h1)])
+            // std adapters consult size_hint (with debug assertions they check what it promises)
+            let adapters = guard(|| {
+                let a = doc.page_iter().filter(|_| true).count();
+                let b = doc.page_iter().skip(1).step_by(2).count();
+                let c = doc.page_iter().chain(doc.page_iter()).map(|x| x).collect::<Vec<_>>().len();
+                let d = doc.page_iter().enumerate().peekable().count();
+                let e = doc.page_iter().take(3).collect::<std::collections::VecDeque<_>>().len();
+                Sx::L(vec![Sx::num(a), Sx::num(b), Sx::num(c), Sx::num(d), Sx::num(e)])
+            });
+            Sx::L(vec![h(h0), opt(first, oid_to_sx), h(h1), adapters])
         }),
         "pages" => guard(|| {
             let it: Vec<ObjectId> = doc.page_iter().collect();
